@@ -159,6 +159,7 @@ type Case struct {
 	Client   string   `json:"client"` // "consume" | "retain"
 	Ops      []Op     `json:"ops,omitempty"`
 	Free     *Free    `json:"free,omitempty"`
+	Reconf   *Reconf  `json:"reconf,omitempty"`
 	// FailedCb: install RequestQueue.Failed (the sender itself never does; a queue without the
 	// callback must refuse on overflow all the same)
 	FailedCb bool `json:"failed_cb,omitempty"`
@@ -258,6 +259,10 @@ func (c *Case) canon() string {
 			sb.WriteString(o.K[:2] + ";")
 		}
 	}
+	if c.Reconf != nil {
+		x := c.Reconf.New
+		fmt.Fprintf(&sb, "reconf a=%d b=%d new=%s,%s,%s,%s", len(c.Reconf.A), len(c.Reconf.B), optStr(x.QueueSize), optStr(x.MaxWait), optStr(x.MaxBuf), optStr(x.ZipMin))
+	}
 	if c.Free != nil {
 		fmt.Fprintf(&sb, "free p=%d d=%d early=%v accept=%s slow=%d", len(c.Free.Producers), len(c.Free.Direct), c.Free.StopEarly, c.Free.Accept, c.Free.SlowUs)
 		for _, p := range c.Free.Producers {
@@ -273,6 +278,10 @@ func (c *Case) canon() string {
 
 func (c *Case) allSpecs() []RecSpec {
 	var out []RecSpec
+	if c.Reconf != nil {
+		out = append(out, c.Reconf.A...)
+		out = append(out, c.Reconf.B...)
+	}
 	for _, o := range c.Ops {
 		if o.R != nil {
 			out = append(out, *o.R)
